@@ -179,12 +179,18 @@ func H_Lifecycle_Multi() {
 	}
 	lifecycle(mk, inbox, &bad, ssid)
 	if vsym.Native() {
-		raceDrive(mk(), inbox)
+		raceDrive(mk, inbox)
 	}
 }
 
 // raceDrive (native replay only, run under the race detector): the public API driven from several goroutines.
-func raceDrive(h Handler, inbox []*Message) {
+func raceDrive(mk func() Handler, inbox []*Message) {
+	for iter := 0; iter < 150; iter++ {
+		raceDriveOnce(mk(), inbox)
+	}
+}
+
+func raceDriveOnce(h Handler, inbox []*Message) {
 	var wg sync.WaitGroup
 	for g := 0; g < 4; g++ {
 		wg.Add(1)
